@@ -122,3 +122,4 @@ def pick_dict(E, name, alts, keys, leafkind="scalar"):
 ALTS_X = [X]
 ALTS_MERGE = [X, L(X), L(X, X), D(a=X), S("ab\ncd\n"), S("ab\ncX\n")]
 ALTS_MERGE_S = [X, L(X), D(a=X)]
+ALTS_INTKEY = [X, D(a=X), ("D", {"7": X, "k": X})]
